@@ -2,6 +2,7 @@
 package main
 
 import (
+	"encoding/json"
 	"fmt"
 	"os"
 
@@ -10,6 +11,12 @@ import (
 )
 
 func main() {
+	if len(os.Args) > 1 && os.Args[1] == "grpc" {
+		conn := &apidesc.RecConn{}
+		b := apidesc.GrpcBindings(conn, pb.NewInsightsClient(conn), pb.Insights_ServiceDesc, pb.UnimplementedInsightsServer{})
+		json.NewEncoder(os.Stdout).Encode(b)
+		return
+	}
 	if err := apidesc.Dump(pb.File_api_proto, os.Stdout); err != nil {
 		fmt.Fprintln(os.Stderr, err)
 		os.Exit(2)
